@@ -220,6 +220,9 @@ def make_objfun(case, o):
             r = script[(k - 1) % len(script)].copy()
         else:
             r = np.array(smooth_resid(case, xc), dtype=float)
+        nh = case.get("nan_half")
+        if nh is not None and float(np.dot(nh["a"], xc)) > nh["beta"]:
+            r = np.full(len(r), np.nan)         # deterministic objective that is undefined (NaN) on a half-space not containing x0
         if noise:
             z = prf(noise["seed"] + 7919 * k, b"noise", len(r))
             r = r * (1.0 + noise.get("mult", 0.0) * z) + noise.get("add", 0.0) * z
